@@ -9,6 +9,18 @@ theorem inv_step (st : State) (ev : Ev) (h : Proofs.PC.Inv st) : Proofs.PC.Inv (
   cases ev with
   | send f n => exact inv_send f n h
   | sendPreset s f n => exact inv_sendPreset s f n h
+  | sendFail =>
+    show Proofs.PC.Inv (sendFail st).1
+    unfold sendFail
+    split
+    · exact h
+    · exact h
+  | retry f n =>
+    show Proofs.PC.Inv (retry st f n).1
+    unfold retry
+    split
+    · exact inv_sendPreset _ f n (st := { st with failedSerial := none }) h
+    · exact h
   | peer rs tag => exact h
   | pump => exact inv_pump h
   | dispatch => exact inv_dispatch h
